@@ -129,6 +129,16 @@ def case_locality(case):
             for bi, (ctype, conn) in enumerate(blocks):
                 cen = np.array([mp3[c].mean(axis=0) for c in conn]).T[[0, 2]]
                 r.close("meshio mesh in the x-z plane (direction='xz'): cell data == unstructured at (x, z) of the centroids", np.array(mesh3.cell_data["fz"][bi]).T if vec else np.array(mesh3.cell_data["fz"][bi]), np.array(fresh(cen, seed=seed)), rtol=1e-12, atol=ATOL, block=ctype)
+        # direction strings in any axis order (and the equivalent index lists) select the coordinates in that order
+        mpd = np.column_stack([flat[0] if d >= 1 else 0, (flat[1] if d >= 2 else flat[0]) + 0.37, (flat[2] if d >= 3 else flat[0] * 0.5 - 1.0)])[:, :3]
+        meshd = meshio.Mesh(mpd, blocks)
+        for dstr in (["yx", "zx", "zy", "xz"] if d == 2 else ["zyx", "yzx", "xzy"]):
+            sel = ["xyz".index(c) for c in dstr]
+            exp_pts = np.array(fresh(mpd.T[sel], seed=seed))
+            got = srf.mesh(meshd, points="points", direction=dstr, seed=seed, name="fd")
+            r.close("mesh(direction=<axis string in any order>) == unstructured at the coordinates in that order", np.array(got), exp_pts, rtol=1e-12, atol=ATOL, direction=dstr)
+            got2 = srf.mesh(meshd, points="points", direction=sel, seed=seed, name="fd2")
+            r.close("mesh(direction=<index list>) == unstructured at the coordinates in that order", np.array(got2), exp_pts, rtol=1e-12, atol=ATOL, direction=dstr)
     # seed value semantics: numpy integer / python int of the same value
     f_np = np.array(_srf(case, np.int64(seed))(pts))
     r.close("seed given as numpy integer == python int", f_np, full, rtol=0, atol=0)
